@@ -77,6 +77,38 @@ macro_rules! skein_ff {
     }};
 }
 
+/// reuse after a long message: the counter is fast-forwarded to `base` (a word boundary or far beyond), a few bytes are
+/// absorbed, the instance is reset through one of the public ways, and then hashes `msg` - which must give the plain digest
+/// of `msg` (an `ff` event with base 0)
+macro_rules! ff_reset {
+    ($out:ident, $T:ty, $alg:expr, $set:expr, $nl:expr, $pending:expr, $how:expr, $msg:expr, $tag:expr, $first:expr) => {{
+        let msg: &[u8] = $msg;
+        let pending: Vec<u8> = vec![0x5au8; $pending];
+        let r = guarded(|| {
+            let mut h = <$T>::default();
+            $set(&mut h);
+            Digest::update(&mut h, &pending);
+            match $how % 4 {
+                0 => Digest::reset(&mut h),
+                1 => {
+                    let _ = Digest::finalize_reset(&mut h);
+                }
+                2 => {
+                    let _ = digest::FixedOutput::finalize_fixed_reset(&mut h);
+                }
+                _ => {
+                    let mut o = digest::generic_array::GenericArray::default();
+                    digest::FixedOutputDirty::finalize_into_dirty(&mut h, &mut o);
+                    digest::Reset::reset(&mut h);
+                }
+            }
+            Digest::update(&mut h, msg);
+            Digest::finalize(h).to_vec()
+        });
+        emit($out, "ff", $alg, <$T as Digest>::output_size(), 0, $nl, None, $first, 0, msg, r, $tag);
+    }};
+}
+
 fn rests(rng: &mut Rng, b: usize, k: usize, thorough: bool) -> Vec<Vec<u8>> {
     // k blocks reach the boundary; j more cross it; then a partial block
     let mut v = vec![];
@@ -96,6 +128,35 @@ fn rests(rng: &mut Rng, b: usize, k: usize, thorough: bool) -> Vec<Vec<u8>> {
 pub fn drive_c17(out: &mut dyn std::io::Write, seed: u64, thorough: bool, family: &str) {
     let mut rng = Rng::new(seed ^ 0xc17);
     let ks: Vec<usize> = if thorough { vec![0, 1, 2, 3] } else { vec![0, 1, 2] };
+    // reuse of an instance whose counter sits exactly on / just beyond a word boundary
+    for how in 0..4usize {
+        for (pi, pending) in [0usize, 5, 70].iter().enumerate() {
+            if !thorough && (how + pi + seed as usize) % 2 == 1 {
+                continue;
+            }
+            let msg = rng.bytes(3 + 40 * how + pi);
+            match family {
+                "blake" => {
+                    ff_reset!(out, blake_hash::Blake256, "Blake256", |h: &mut blake_hash::Blake256| h.verif_set_counter(0, 1 + how as u32), 4, *pending, how, &msg, "reset-after-k*2^32", false);
+                    ff_reset!(out, blake_hash::Blake224, "Blake224", |h: &mut blake_hash::Blake224| h.verif_set_counter(0, 3), 4, *pending, how, &msg, "reset-after-k*2^32", false);
+                    ff_reset!(out, blake_hash::Blake512, "Blake512", |h: &mut blake_hash::Blake512| h.verif_set_counter(0, 1), 8, *pending, how, &msg, "reset-after-2^64", false);
+                    ff_reset!(out, blake_hash::Blake384, "Blake384", |h: &mut blake_hash::Blake384| h.verif_set_counter(1024, 2), 8, *pending, how, &msg, "reset-after-2^65", false);
+                }
+                "groestl" => {
+                    ff_reset!(out, groestl_aesni::Groestl256, "Groestl256", |h: &mut groestl_aesni::Groestl256| h.verif_set_counter(1u64 << 32), 4, *pending, how, &msg, "reset-after-2^32", false);
+                    ff_reset!(out, groestl_aesni::Groestl384, "Groestl384", |h: &mut groestl_aesni::Groestl384| h.verif_set_counter((1u64 << 32) + 1), 4, *pending, how, &msg, "reset-after-2^32", false);
+                }
+                "jh" => {
+                    ff_reset!(out, jh_x86_64::Jh256, "Jh256", |h: &mut jh_x86_64::Jh256| h.verif_set_counter(1usize << 32), 8, *pending, how, &msg, "reset-after-2^32", false);
+                    ff_reset!(out, jh_x86_64::Jh384, "Jh384", |h: &mut jh_x86_64::Jh384| h.verif_set_counter(1usize << 29), 8, *pending, how, &msg, "reset-after-2^29", false);
+                }
+                _ => {
+                    ff_reset!(out, skein_hash::Skein256<U32>, "Skein256", |h: &mut skein_hash::Skein256<U32>| h.verif_set_counter(1u64 << 32), 4, *pending, how, &msg, "reset-after-2^32", true);
+                    ff_reset!(out, skein_hash::Skein1024<U128>, "Skein1024", |h: &mut skein_hash::Skein1024<U128>| h.verif_set_counter((1u64 << 32) + 128), 4, *pending, how, &msg, "reset-after-2^32", true);
+                }
+            }
+        }
+    }
     if family == "blake" {
         for &k in ks.iter() {
             // BLAKE-224/256: 2^32-bit low-word carry; also with a non-zero high word, and far below (control)
